@@ -28,6 +28,7 @@ DROPPED = ["visibility qualifiers (pub, pub(crate), pub(super))",
            "debug_assert!(..) / debug_assert_eq!(..) / debug_assert_ne!(..) and log::*!(..) statements",
            "display-only statements `<v>.iter().for_each(|e| { crate::display_error(e); });`",
            "module-level `const` items of the source file that the extracted code refers to and the unit does not define are extracted with it",
+           "where a unit says or_guard_rule: a match arm `A | B if g => { body }` is written as the two arms `A if g => { body }` and `B if g => { body }`",
            "where a unit says pub_fields: every field of an extracted struct is made `pub`",
            "where a unit says foreach_rule: a statement `<it>.for_each(|<pat>| { <body> });` is rewritten to `for <pat> in <it> { <body> }` (the definition of Iterator::for_each; Verus takes no closure capturing `&mut` state)",
            "where a unit says closure_contracts: the parameter list of a named closure is replaced by an annotated one (types, named result, requires/ensures) and its body, untouched, is wrapped in braces (Verus does not infer closure postconditions)",
@@ -201,6 +202,24 @@ def closure_contracts(txt, specs, key):
             body = "{ " + out[b0:b1].rstrip() + " }"
         out = out[:p0] + sp["header"] + "\n" + body + out[b1:]
     return out
+
+
+def or_guard_rule(txt):
+    """Verus takes no match arm that has both an or-pattern and a guard: `A | B if g => { body }` is written as the two
+    arms `A if g => { body } B if g => { body }` (same meaning: the guard applies to either alternative, the body is
+    duplicated verbatim). Only the shape `(tuple pattern) | (tuple pattern)` + guard + block body is handled."""
+    out = txt
+    pos = 0
+    while True:
+        m = re.compile(r"(\([^\n|]*\))\s*\|\s*(\([^\n|]*\))\s*if\s+([^\n]*?)\s*=>\s*\{").search(out, pos)
+        if not m:
+            return out
+        b0 = m.end() - 1
+        b1 = match_brace(out, b0)
+        body = out[b0:b1]
+        new = f"{m.group(1)} if {m.group(3)} => {body}\n        {m.group(2)} if {m.group(3)} => {body}"
+        out = out[:m.start()] + new + out[b1:]
+        pos = m.start() + len(new)
 
 
 def _match_paren(text, i):
@@ -496,6 +515,8 @@ def extract_item(e, vac=False):
     item = rewrite(item, e.get("keep_pub", False))
     if e.get("foreach_rule"):
         item = foreach_rule(item)
+    if e.get("or_guard_rule"):
+        item = or_guard_rule(item)
     if e.get("pub_fields"):
         # struct item: every field is made `pub` (the unit's spec functions read them; a private field would make the
         # datatype opaque to them) - also fields a later change adds
@@ -512,7 +533,7 @@ def extract_item(e, vac=False):
         # textual substitution in the signature (type erasure of reader type parameters); optional third element: occurrences
         a, b = sub[0], sub[1]
         want = sub[2] if len(sub) > 2 else 1
-        if item.count(a) != want:
+        if want != "*" and item.count(a) != want:   # "*": every occurrence, also none (threading a ghost parameter into calls)
             raise ExtractError(f"lost anchor for signature substitution: `{a}` in {e['key']}")
         item = item.replace(a, b)
     if e.get("generic_T"):
